@@ -188,7 +188,10 @@ func newCmd_Index_sigExists() *cli.Command {
 					}
 					return err
 				}
-				kind := iplddecoders.Kind(block.RawData()[1])
+				kind, err := iplddecoders.GetKind(block.RawData())
+				if err != nil {
+					return fmt.Errorf("failed to get the kind of %s: %w", block.Cid(), err)
+				}
 
 				switch kind {
 				case iplddecoders.KindTransaction:
